@@ -300,3 +300,27 @@ Qed.
 
 Lemma stuck_reachable : stuckh (runh witness_sendch_full (inith 2)) = true.
 Proof. vm_compute. reflexivity. Qed.
+
+(* ---------------------------------------------------------------------------------------- *)
+(* the peer's close notification is never dropped                                             *)
+(* ---------------------------------------------------------------------------------------- *)
+Lemma pc_step_inv : forall s e, (pc_notified s = true -> pc_covered s = true) ->
+  (pc_notified (pc_step true s e) = true -> pc_covered (pc_step true s e) = true).
+Proof.
+  intros s e H. destruct s as [cl nt er se dd fb qf sf iq isk gc]. unfold pc_covered in *. cbn in H.
+  destruct e; cbn [pc_step pc_notify pc_closed pc_notified pc_err pc_sockerr pc_dead pc_fallback pc_qfull pc_sockfail in_queue in_sock got_close];
+    repeat match goal with
+           | |- context [if ?b then _ else _] => is_var b; destruct b
+           end; cbn in *; intros; try (apply H; assumption); try reflexivity; try discriminate;
+    rewrite ?orb_true_r; try reflexivity; try (apply H; reflexivity).
+Qed.
+
+Lemma peer_close_notification_in_flight : forall evs, let s := pc_run true evs in
+  pc_notified s = true -> pc_covered s = true.
+Proof.
+  intro evs. unfold pc_run.
+  assert (G : forall s, (pc_notified s = true -> pc_covered s = true) ->
+              pc_notified (fold_left (pc_step true) evs s) = true -> pc_covered (fold_left (pc_step true) evs s) = true).
+  { induction evs as [|e r IH]; intros s H; [exact H|]. cbn [fold_left]. apply IH. apply pc_step_inv. exact H. }
+  apply G. cbn. discriminate.
+Qed.
